@@ -166,8 +166,27 @@ def make_body(template, nb, through_findall, info):
         if show(saved, {}) != exp_term:
             ch.note(info, 'get_value gives %r, reference %r', show(saved, {}), exp_term)
             return ch.VIOLATED
-        for it in reversed(opened):
-            it.close()
+        # backtrack one binding at a time: after each step the term must read as under the remaining bindings
+        # (a dereferencing shortcut that is not undone on backtracking shows up here)
+        k = len(opened)
+        while k > 0:
+            opened[k - 1].close()
+            k -= 1
+            sk = {}
+            try:
+                for j in range(k):
+                    sk = runify(('v', binds[j][0]), binds[j][2], sk)
+            except Cyclic:
+                break
+            try:
+                now_py = to_python(T)
+                now = show(get_value(T), {})
+            except Exception as e:
+                ch.note(info, 'to_python/get_value raised %s after backtracking', type(e).__name__)
+                return ch.VIOLATED
+            if now_py != ref_to_python(rT, sk) or now != resolve(rT, sk, {}):
+                ch.note(info, 'after undoing binding %d the term reads %r, reference %r', k, now, resolve(rT, sk, {}))
+                return ch.VIOLATED
         if ground:
             after = show(saved, {})
             if after != exp_term:
